@@ -326,12 +326,18 @@ fn folder_diff(a: &FolderM, b: &FolderM) -> Option<String> {
 
 /// C02: for every folder of the device: replay(log) == served == mirror.
 pub async fn check_replay(dev: &mut Device, rec: &mut Recorder, when: &str, per_commit: bool) {
+    check_replay_as(dev, rec, when, per_commit, "C02").await
+}
+
+/// The same three-way oracle, reported under another property id (C12/C13
+/// re-use it as a sub-check).
+pub async fn check_replay_as(dev: &mut Device, rec: &mut Recorder, when: &str, per_commit: bool, prop: &str) {
     let served = match dev.snapshot().await {
         Ok(s) => s,
         Err(e) => {
             rec.violate(
-                "C02",
-                &format!("C02/{}/served_snapshot_failed", dev.kind.name()),
+                prop,
+                &format!("{prop}/{}/served_snapshot_failed", dev.kind.name()),
                 format!("{} after {when}: {e}", dev.name),
             );
             return;
@@ -396,15 +402,15 @@ pub async fn check_replay(dev: &mut Device, rec: &mut Recorder, when: &str, per_
                         class = "name/account_log_and_folder_log_order_renames_differently".into();
                     }
                     rec.violate(
-                        "C02",
-                        &format!("C02/{backend}/replay_vs_served/{class}{dup_tag}"),
+                        prop,
+                        &format!("{prop}/{backend}/replay_vs_served/{class}{dup_tag}"),
                         format!("{} after {when}: folder {fid}: replay(log) expected-side vs served got-side: {d}", dev.name),
                     );
                 }
             }
             Err(e) => rec.violate(
-                "C02",
-                &format!("C02/{backend}/replay_failed"),
+                prop,
+                &format!("{prop}/{backend}/replay_failed"),
                 format!("{} after {when}: folder {fid}: {e}", dev.name),
             ),
         }
@@ -432,21 +438,21 @@ pub async fn check_replay(dev: &mut Device, rec: &mut Recorder, when: &str, per_
                             class = "name/account_log_and_folder_log_order_renames_differently".into();
                         }
                         rec.violate(
-                            "C02",
-                            &format!("C02/{backend}/mirror_vs_served/{class}{dup_tag}"),
+                            prop,
+                            &format!("{prop}/{backend}/mirror_vs_served/{class}{dup_tag}"),
                             format!("{} after {when}: folder {fid}: persisted vault expected-side vs served got-side: {d}", dev.name),
                         );
                     }
                 }
                 Err(e) => rec.violate(
-                    "C02",
-                    &format!("C02/{backend}/mirror_unreadable"),
+                    prop,
+                    &format!("{prop}/{backend}/mirror_unreadable"),
                     format!("{} after {when}: folder {fid}: {e}", dev.name),
                 ),
             },
             Err(e) => rec.violate(
-                "C02",
-                &format!("C02/{backend}/mirror_unreadable"),
+                prop,
+                &format!("{prop}/{backend}/mirror_unreadable"),
                 format!("{} after {when}: folder {fid}: {e}", dev.name),
             ),
         }
@@ -474,8 +480,8 @@ pub async fn check_replay(dev: &mut Device, rec: &mut Recorder, when: &str, per_
                             class = "name/account_log_and_folder_log_order_renames_differently".into();
                         }
                         rec.violate(
-                            "C02",
-                            &format!("C02/{backend}/replay_until_head_vs_served/{class}"),
+                            prop,
+                            &format!("{prop}/{backend}/replay_until_head_vs_served/{class}"),
                             format!("{} after {when}: folder {fid}: {d}", dev.name),
                         );
                     }
